@@ -16,6 +16,7 @@ TRUSTED = ['native-tls / rustls certificate and host name verification', 'tokio_
 UNDECIDED = ['TLS library behaviour', 'server behaviour at run time']
 ASSUMPTIONS = []
 CONFIGS = ['default', 'rustls']
+QUICK_CONFIGS = ['default', 'rustls']      # the two TLS back ends are sibling implementations of the same clauses, selected by cfg: a change can be visible in only one of them
 SHARED = [('C04', ('L7.',), 'W6.transport')]      # what is written to a ConnType::Tls goes to the TLS stream, not to another variant's socket, method by method
 
 NT = 'ldap3::conn::LdapConnAsync::new_tcp'
@@ -143,6 +144,8 @@ def run(ctx):
                     'certificate verification is %s although no_tls_verify is %s' % ('disabled' if d else 'kept', nv))
         ctx.floor('W4', fn.split('::')[-1] + ' paths', n, 2)
     check_settings_copy(ctx, f)
+    check_settings_getters(ctx, f)
+    check_other_constructors(ctx, f)
     ts = 'ldap3::conn::LdapConnAsync::create_tls_stream'
     if ts in f.hir:
         T = hirq.Body(f, f.body(ts))
@@ -207,3 +210,59 @@ def check_settings_copy(ctx, f):
                 'a clone of the connection settings does not carry over %s (it becomes %s): a connection opened from the copy is not protected as requested' % (
                     wrong, [absx.fmt(got.get(x, ('unk',)))[:30] for x in wrong]))
     ctx.floor('W5', 'paths of the settings\' Clone::clone', n, 1)
+
+
+def check_settings_getters(ctx, f):
+    """W7: the constructors read what was requested through the settings' getters; a getter that does not return its field turns the
+    request off (or on) for every caller.  In every configuration in which the settings struct has the field, each path of the getter
+    of the same name returns that field of `self` (the always-false fallback exists only where no TLS backend is compiled in - and
+    there the struct has no such field).  This is what ties `set_starttls(true)` to the scheme decision of the TCP constructor in
+    both TLS back ends (the cfg attributes on the getter pair are not visible in any one configuration)."""
+    st = 'ldap3::conn::LdapConnSettings'
+    fields = [fl['name'] for v in (f.items.get(st) or {}).get('variants', []) for fl in v['fields']]
+    SELF = ('param', 'self')
+    n = 0
+    for name in ('starttls', 'no_tls_verify'):
+        g = '%s::%s' % (st, name)
+        if name not in fields or g not in f.hir:
+            continue
+        B = hirq.Body(f, f.body(g))
+        ctx.analysed['bodies'].add(g)
+        for o in absx.Interp(f, B).run():
+            if o.kind not in ('val', 'ret'):
+                continue
+            n += 1
+            ctx.add('W7.getter-returns-the-setting', name, loc(B.root), o.val == ('field', SELF, name),
+                    'LdapConnSettings::%s() returns %s, not the `%s` field set by its setter: what the caller requested is not what connection set-up sees' % (name, absx.fmt(o.val)[:40], name))
+    if 'starttls' in fields:
+        ctx.floor('W7', 'paths of the TLS-relevant settings getters', n, 1)
+
+
+def check_other_constructors(ctx, f):
+    """W8: `set_starttls(true)` is a request for a protected session whatever the URL scheme.  Every constructor that can hand back a
+    connection without TLS must have read the request and found it false on that path - otherwise it hands back a cleartext handle
+    although protection was asked for.  The TCP constructor is decided by W1; this rule covers the remaining ones (the Unix-socket
+    constructor)."""
+    SETT = ('param', 'settings')
+    for p in sorted(q for q in f.hir if q.startswith('ldap3::conn::LdapConnAsync::new_') and q != NT and '{' not in q):
+        it = f.items.get(p) or {}
+        if not any('LdapConnSettings' in (x or '') for x in it.get('inputs') or []):
+            continue
+        B = hirq.Body(f, f.body(p))
+        ctx.analysed['bodies'].add(p)
+        outs = absx.Interp(f, B, unroll=1).run(root=B.root['body'] if B.root['k'] == 'Closure' else B.root)
+        oks = [o for o in outs if o.kind in ('val', 'ret') and o.val[0] == 'ctor' and o.val[1] == 'Ok']
+        if not oks:
+            continue        # e.g. the non-Unix stub, which never returns
+        bad = []
+        for o in oks:
+            asked = None
+            for a, t in o.st.pc:
+                if (a[0] == 'call' and a[1].endswith('LdapConnSettings::starttls')) or a == ('field', SETT, 'starttls'):
+                    asked = t
+            tls = any(e[0] == 'call' and e[1].endswith('::create_tls_stream') for e in o.st.ev)
+            if not tls and asked is not False:
+                bad.append(o)
+        ctx.add('W8.no-cleartext-handle-when-starttls-requested', p.rsplit('::', 1)[-1], loc(B.root), not bad,
+                '%s returns a connection without TLS on %d of %d paths without having found the StartTLS request absent: with an %s URL, set_starttls(true) is silently ignored and a cleartext handle is handed back' % (
+                    p.rsplit('::', 1)[-1], len(bad), len(oks), 'ldapi' if 'unix' in p else 'other'))
